@@ -8,6 +8,7 @@ package main
 import (
 	"fmt"
 	"go/ast"
+	"go/constant"
 	"go/importer"
 	"go/parser"
 	"go/token"
@@ -134,11 +135,50 @@ func TestVerifBoundedC07(t *testing.T) {
 			continue
 		}
 		conf := types.Config{Importer: imp, Error: func(error) {}}
-		_, terr := conf.Check(pkgname, fset, []*ast.File{f}, nil)
+		info := &types.Info{Types: map[ast.Expr]types.TypeAndValue{}}
+		_, terr := conf.Check(pkgname, fset, []*ast.File{f}, info)
 		checked++
 		if terr != nil {
 			fails++
 			fmt.Printf("BOUNDED-FAIL kind=typecheck description=%q err=%v\n", d, terr)
+			continue
+		}
+		// "the code reports exactly that interface name and, up to trailing newlines, that description
+		// text at run time": both accessors return constant expressions; evaluate them
+		wantName := ""
+		if tr, perr := parseOnly(d); perr == nil {
+			wantName = idlName(tr)
+		}
+		if f.Name.Name != pkgname {
+			fails++
+			fmt.Printf("BOUNDED-FAIL kind=package-name description=%q package clause %q, generator reported %q\n", d, f.Name.Name, pkgname)
+		}
+		for _, dd := range f.Decls {
+			fd, ok := dd.(*ast.FuncDecl)
+			if !ok || fd.Recv == nil || fd.Body == nil || len(fd.Body.List) != 1 {
+				continue
+			}
+			rs, ok := fd.Body.List[0].(*ast.ReturnStmt)
+			if !ok || len(rs.Results) != 1 {
+				continue
+			}
+			tv, ok := info.Types[rs.Results[0]]
+			if !ok || tv.Value == nil || tv.Value.Kind() != constant.String {
+				continue
+			}
+			got := constant.StringVal(tv.Value)
+			switch fd.Name.Name {
+			case "VarlinkGetName":
+				if got != wantName {
+					fails++
+					fmt.Printf("BOUNDED-FAIL kind=reported-name description=%q VarlinkGetName() = %q, interface is %q\n", d, got, wantName)
+				}
+			case "VarlinkGetDescription":
+				if strings.TrimRight(got, "\n") != strings.TrimRight(d, "\n") {
+					fails++
+					fmt.Printf("BOUNDED-FAIL kind=reported-description description=%q VarlinkGetDescription() = %q\n", d, got)
+				}
+			}
 		}
 	}
 	fmt.Printf("BOUNDED-DONE descriptions=%d typechecked=%d fails=%d bound=\"type constructors to depth %d in alias/param/result/error-field position, plus special cases\"\n", len(descs), checked, fails, depth)
